@@ -2,6 +2,7 @@
    q  tok...   detailed trace of the outstanding-query table: per operation the
                observation and count/curr/occupancy after it
    ql tok...   long sequences: observations only, then `| count curr len`
+   qp n tok... the same, starting from the table that n inserts (values 0..n-1) produce
    tokens: i<v> insert, a<idx>:<v> insert_at, r<idx> try_remove, d drain,
            F<n>:<start> n inserts of start.., X<from>:<n>:<step> n removes *)
 let ni s = n_of_int (int_of_string s)
@@ -52,5 +53,46 @@ let handle = function
        | Panic _ -> "Panic"
        | Err _ -> "Err"
        | OutOfFuel -> "OutOfFuel")
+  | "qp" :: n :: toks ->
+      let n = int_of_string n in
+      (match c15_run_obs (c15_prefill (List.init n (fun k -> n_of_int k))) (ops_of toks) [] with
+       | Ok (obs, ((c, cu), len)) ->
+           String.concat " " (List.map show_obs obs) ^
+           Printf.sprintf " | %d %d %d" (int_of_n c) (int_of_n cu) (int_of_n len)
+       | Panic _ -> "Panic"
+       | Err _ -> "Err"
+       | OutOfFuel -> "OutOfFuel")
+  | ["ia"; rid; rq; aid; qr; rc; qd; an; ns; ar; aq] ->
+      let lst s = if s = "-" then [] else List.map ni (String.split_on_char ',' s) in
+      let a = { m_id = ni aid; m_qr = (qr = "1"); m_tc = false; m_rcode = ni rc; m_qd = ni qd; m_an = ni an;
+                m_ns = ni ns; m_ar = ni ar; m_qs = (if aq = "bad" then None else Some (lst aq)) } in
+      if c15_is_answer { r_id = ni rid; r_qs = lst rq } a then "true" else "false"
+  | ["dg"; retries; timeout; script] ->
+      let mk id tc rc qd an qs = PMsg { m_id = n_of_int id; m_qr = true; m_tc = tc; m_rcode = n_of_int rc; m_qd = n_of_int qd;
+                                       m_an = n_of_int an; m_ns = N0; m_ar = N0; m_qs = qs } in
+      let q l = Some (List.map n_of_int l) in
+      let pkt id = function
+        | 'G' | 'U' -> mk id false 0 1 0 (q [0]) | 'T' -> mk id true 0 1 0 (q [0]) | 'X' -> mk id false 0 1 1 (q [0])
+        | 'E' -> mk id false 3 1 0 (q [0]) | 'H' -> mk id false 2 0 0 (q [])
+        | 'I' | 'P' -> mk ((id + 1) land 65535) false 0 1 0 (q [0])
+        | 'Q' -> (match mk id false 0 1 0 (q [0]) with PMsg m -> PMsg { m with m_qr = false } | p -> p)
+        | 'N' -> mk id false 0 1 0 (q [1]) | 'Y' -> mk id false 0 1 0 (q [2]) | 'Z' -> mk id false 0 0 0 (q [])
+        | 'W' -> mk id false 0 2 0 (q [0; 1]) | 'B' -> mk id false 0 1 0 None
+        | 'S' -> PGarbage | 'R' -> PRecvErr | _ -> failwith "bad variant" in
+      let attempt k s =
+        let id = 1000 + k in
+        let fault = (match s.[0] with '-' -> FNone | 'c' -> FConnect | 's' -> FSend | 'h' -> FShortSend | _ -> failwith "bad fault") in
+        let body = String.sub s 1 (String.length s - 1) in
+        let pkts = if body = "-" then [] else
+          List.map (fun t -> match String.split_on_char ':' t with
+                             | [off; v] -> (ni off, pkt id v.[0]) | _ -> failwith "bad packet") (String.split_on_char ',' body) in
+        { a_fault = fault; a_id = n_of_int id; a_pkts = pkts } in
+      let atts = if script = "-" then [] else List.mapi attempt (String.split_on_char '|' script) in
+      let (r, sends) = c15_dgram (ni retries) (ni timeout) [n_of_int 0] atts in
+      (match r with
+       | DOk (_, t, m) -> Printf.sprintf "Ok t=%d sends=%d rcode=%d tc=%d an=%d" (int_of_n t) (int_of_n sends)
+                            (int_of_n m.m_rcode) (if m.m_tc then 1 else 0) (int_of_n m.m_an)
+       | DErr (e, t) -> Printf.sprintf "Err %s t=%d sends=%d"
+                          (match int_of_n e with 1 -> "connect" | 2 -> "send" | 3 -> "receive" | _ -> "timeout") (int_of_n t) (int_of_n sends))
   | _ -> failwith "bad case line"
 let () = main handle
